@@ -39,6 +39,8 @@ func (r *UnitRun) evalCall(st *State, e *ast.CallExpr) Val {
 					panic(toolLimit("fmt." + sel.Sel.Name))
 				case "math":
 					return r.evalMath(st, sel.Sel.Name, e)
+				case "slices":
+					return r.evalSlicesPkg(st, sel.Sel.Name, e)
 				}
 				fn, _ := r.info.ObjectOf(sel.Sel).(*types.Func)
 				if u, ok := r.prog.ByObj[fn]; ok {
@@ -336,6 +338,24 @@ func (r *UnitRun) evalBuiltin(st *State, name string, e *ast.CallExpr) Val {
 			return intV(v.S.Cap)
 		}
 		panic(toolLimit("cap of slice with unknown capacity"))
+	case "min", "max":
+		// the Go 1.21 builtins on integers and floats (NaN-free floats: reals)
+		acc := r.evalExpr(st, e.Args[0])
+		if acc.K != KInt && acc.K != KReal {
+			panic(toolLimit("builtin " + name + " of " + acc.String()))
+		}
+		op := "<="
+		if name == "max" {
+			op = ">="
+		}
+		for _, a := range e.Args[1:] {
+			v := r.evalExpr(st, a)
+			if v.K != acc.K {
+				panic(toolLimit("builtin " + name + " of mixed kinds"))
+			}
+			acc = Val{K: acc.K, T: fmt.Sprintf("(ite (%s %s %s) %s %s)", op, acc.T, v.T, acc.T, v.T), Go: acc.Go}
+		}
+		return acc
 	case "panic":
 		for _, a := range e.Args {
 			r.evalExpr(st, a)
@@ -731,6 +751,13 @@ func (r *UnitRun) applyContractSelf(st *State, callee *Unit, recv *Val, args []V
 
 func (r *UnitRun) specBool(env *SpecEnv, c Clause, ctx string) (res string) {
 	defer func() {
+		if res != "" {
+			if why := incompletePattern(res); why != "" {
+				panic(toolLimit(fmt.Sprintf("%s (%s): %s", ctx, c.Where, why)))
+			}
+		}
+	}()
+	defer func() {
 		if x := recover(); x != nil {
 			if se, ok := x.(specError); ok {
 				panic(toolLimit(fmt.Sprintf("%s (%s): %s in %q", ctx, c.Where, string(se), c.Text)))
@@ -942,4 +969,38 @@ func (r *UnitRun) capturedVars(u *Unit) []*types.Var {
 		return true
 	})
 	return out
+}
+
+// evalSlicesPkg models the two pure predicates of package slices on slices of scalars (Equal, Contains); everything
+// else of that package is a tool limit.
+func (r *UnitRun) evalSlicesPkg(st *State, name string, e *ast.CallExpr) Val {
+	scalar := func(v Val) bool {
+		if v.K != KSlice || v.S.Elem == nil {
+			return false
+		}
+		b, ok := v.S.Elem.Underlying().(*types.Basic)
+		return ok && b.Info()&(types.IsInteger|types.IsFloat|types.IsBoolean) != 0
+	}
+	switch name {
+	case "Equal":
+		a, b := r.evalExpr(st, e.Args[0]), r.evalExpr(st, e.Args[1])
+		if !scalar(a) || !scalar(b) {
+			break
+		}
+		qcount++
+		k := fmt.Sprintf("k!q%d", qcount)
+		same := fmt.Sprintf("(forall ((%s Int)) (=> (and (<= 0 %s) (< %s %s)) (= %s %s)))", k, k, k, a.S.Len,
+			r.srcElemTerm(st, a.S, k), r.srcElemTerm(st, b.S, k))
+		return Val{K: KBool, T: and(eq(a.S.Len, b.S.Len), same), Go: types.Typ[types.Bool]}
+	case "Contains":
+		a, x := r.evalExpr(st, e.Args[0]), r.evalExpr(st, e.Args[1])
+		if !scalar(a) {
+			break
+		}
+		qcount++
+		k := fmt.Sprintf("k!q%d", qcount)
+		return Val{K: KBool, T: fmt.Sprintf("(exists ((%s Int)) (and (<= 0 %s) (< %s %s) (= %s %s)))", k, k, k, a.S.Len,
+			r.srcElemTerm(st, a.S, k), x.T), Go: types.Typ[types.Bool]}
+	}
+	panic(toolLimit("call of external function slices." + name))
 }
